@@ -172,7 +172,7 @@ func (l jsonList) patch(pathBehind, pathAhead path, oldValues, newValues []JsonN
 	switch {
 	case isVoid(newValue):
 		var nextNode JsonNode = voidNode{}
-		if len(l) > i {
+		if i >= 0 && len(l) > i {
 			nextNode = l[i]
 		}
 		patchedNode, err := nextNode.patch(append(pathBehind, n), rest, oldValues, newValues, strategy)
@@ -192,7 +192,7 @@ func (l jsonList) patch(pathBehind, pathAhead path, oldValues, newValues []JsonN
 		}
 	case isVoid(oldValue):
 		var nextNode JsonNode = voidNode{}
-		if len(l) > i && len(rest) != 0 {
+		if i >= 0 && len(l) > i && len(rest) != 0 {
 			// Replacing an element.
 			nextNode = l[i]
 		}
@@ -219,12 +219,16 @@ func (l jsonList) patch(pathBehind, pathAhead path, oldValues, newValues []JsonN
 		return l, nil
 	default:
 		var nextNode JsonNode = voidNode{}
-		if len(l) > i {
+		if i >= 0 && len(l) > i {
 			nextNode = l[i]
 		}
 		patchedNode, err := nextNode.patch(append(pathBehind, n), rest, oldValues, newValues, strategy)
 		if err != nil {
 			return nil, err
+		}
+		if i < 0 || i >= len(l) {
+			return nil, fmt.Errorf(
+				"replacement of element outside of array bounds")
 		}
 		// Replace an element (base case).
 		l[i] = patchedNode
